@@ -29,6 +29,8 @@ TRUSTED = [
     "fork() gives the fresh interpreter: the parent imports the library but never executes an operation",
 ]
 
+K_DIE, K_NET = 10e-12, 1e-12
+
 KINDS = ["netlist", "die", "alloc", "sat", "strop"]  # "legal" joins when harness/legal_common.py exists (see run_legal)
 
 
@@ -74,6 +76,17 @@ def gen_netlist(rng: random.Random, s: float, defect: bool, L: int = 10) -> dict
         rtxt = ", ".join(f"[{fmt(x * s)}, {fmt(y * s)}, {fmt(w * s)}, {fmt(h * s)}]" for x, y, w, h in rs)
         mods.append(f"  H{i}: {{{kind}, rectangles: [{rtxt}]}}")
         rects_all.append([(x * s, y * s, w * s, h * s) for x, y, w, h in rs])
+    dims = []   # spec-side tolerance proposal: 1e-12 x min(rectangle sides, sqrt(area) of modules with area > 0)
+    for rs in rects_all:
+        for (_, _, w, h) in rs:
+            dims += [w, h]
+    soft_areas = [float(m.split("area: ")[1].split(",")[0]) for m in mods if "area: " in m]
+    for a in soft_areas:
+        dims.append(math.sqrt(a))
+    for rs in rects_all:
+        dims.append(math.sqrt(sum(w * h for (_, _, w, h) in rs)))
+    for i in range(rng.choice([0, 0, 1, 2])):
+        mods.append(f"  T{i}: {{terminal: true, center: [{fmt(rng.randint(0, 4 * L) / L * s)}, {fmt(rng.randint(0, 4 * L) / L * s)}]}}")
     names = [m.split(":")[0].strip() for m in mods]
     nets = []
     for _ in range(rng.randint(1, 3)):
@@ -82,7 +95,7 @@ def gen_netlist(rng: random.Random, s: float, defect: bool, L: int = 10) -> dict
         w = rng.choice([None, 2, 0.5])
         nets.append("[" + ", ".join(mem + ([fmt(w)] if w else [])) + "]")
     text = "Modules: {\n" + ",\n".join(mods) + "\n}\nNets: [" + ", ".join(nets) + "]\n"
-    return {"kind": "netlist", "scale": s, "text": text, "rects": rects_all}
+    return {"kind": "netlist", "scale": s, "text": text, "rects": rects_all, "proposal": min(dims) * K_NET}
 
 
 def gen_die(rng: random.Random, s: float, defect: bool, L: int = 10) -> dict:
@@ -102,7 +115,7 @@ def gen_die(rng: random.Random, s: float, defect: bool, L: int = 10) -> dict:
         regs.append(r)  # overlapping / leaving the die
     rt = ", ".join(f"[{fmt(r[0] * s)}, {fmt(r[1] * s)}, {fmt(r[2] * s)}, {fmt(r[3] * s)}, {r[4]}]" for r in regs)
     text = f"width: {fmt(W * s)}\nheight: {fmt(H * s)}\n" + (f"regions: [{rt}]\n" if regs else "")
-    return {"kind": "die", "scale": s, "text": text, "W": W * s, "H": H * s,
+    return {"kind": "die", "scale": s, "text": text, "W": W * s, "H": H * s, "proposal": min(W * s, H * s) * K_DIE,
             "rects": [[(r[0] * s, r[1] * s, r[2] * s, r[3] * s) for r in regs]]}
 
 
@@ -111,6 +124,7 @@ def gen_alloc(rng: random.Random, s: float, defect: bool, L: int = 10) -> dict:
     n = gen_netlist(rng, s, False, L)
     n["text"] = n["text"].replace("fixed: true", "hard: true")  # keep the die independent of fixed rectangles
     return {"kind": "alloc", "scale": s, "die": d["text"], "netlist": n["text"], "thr": rng.choice([0.3, 0.6, 0.9]),
+            "proposal": n["proposal"],
             "W": d["W"], "H": d["H"], "rects": d["rects"] + n["rects"]}
 
 
@@ -136,7 +150,8 @@ def gen_strop(rng: random.Random, s: float, defect: bool, L: int = 10) -> dict:
 def gen_legal(rng: random.Random, s: float, defect: bool, L: int = 10) -> dict:
     n = gen_netlist(rng, s, False, L)
     n["text"] = n["text"].replace("fixed: true", "hard: true")
-    return {"kind": "legal", "scale": s, "netlist": n["text"], "W": 6 * s, "H": 6 * s, "rects": n["rects"]}
+    return {"kind": "legal", "scale": s, "netlist": n["text"], "W": 6 * s, "H": 6 * s, "rects": n["rects"],
+            "proposal": n["proposal"]}
 
 
 GEN = {"netlist": gen_netlist, "die": gen_die, "alloc": gen_alloc, "sat": gen_sat, "strop": gen_strop, "legal": gen_legal}
@@ -234,7 +249,18 @@ def run_op(d: dict):
         for bits in range(2 ** nv):
             ass = [(sm.ttable[v] if (bits >> i) & 1 else -sm.ttable[v]) for i, v in enumerate(d["vars"])]
             table.append(bool(s.solve(assumptions=ass)))
-        return ["sat", sat, table, refused], None
+        # the clause set itself, canonical up to renaming of diagram-node / auxiliary variables by first occurrence
+        ren: dict[str, str] = {}
+        cnf = []
+        for cl in sm.clauses:
+            row = []
+            for l in cl:
+                v = l.v
+                if v.startswith("robdd_") or v.startswith("aux_"):
+                    v = ren.setdefault(v, f"{v.split('_')[0]}#{len(ren)}")
+                row.append(("" if l.s else "-") + v)
+            cnf.append(row)
+        return ["sat", sat, table, refused, cnf], None
     if kind == "strop":
         from tools.floorset_parser.floor_set_manager.strop import Strop
         st = Strop(" ".join("".join("1" if c else "0" for c in row) for row in d["matrix"]))
@@ -339,8 +365,6 @@ def robust(probe: dict, lo: float, hi: float) -> bool:
     return True
 
 
-K_DIE, K_NET = 10e-12, 1e-12
-
 
 def proposal_value(prop) -> float | None:
     if prop is None:
@@ -383,7 +407,15 @@ def make_task(rng: random.Random, ctx: Ctx):
     if kind == "sat" and rng.random() < 0.6:
         # an earlier manager that encoded (some of) the very same constraints: shares ROBDD nodes with the probe
         twin = dict(probe)
-        twin["cons"] = [c for c in probe["cons"] if rng.random() < 0.8] or probe["cons"][:1]
+        cons = [dict(c) for c in probe["cons"] if rng.random() < 0.8] or [dict(probe["cons"][0])]
+        for c in cons:
+            if rng.random() < 0.5:
+                c["decomp"] = not c["decomp"]        # same constraint, other ROBDD construction
+            if rng.random() < 0.4:                     # a superset constraint sharing the probe's sub-problems
+                c["terms"] = [(rng.choice([5, 6, 7]), "e", False)] + list(c["terms"])
+                c["rhs"] = c["rhs"] + rng.choice([0, 5, 6])
+        twin["cons"] = cons
+        twin["vars"] = sorted(set(probe["vars"]) | {"e"})
         hist.insert(rng.randint(0, len(hist)), twin)
     return hist, probe
 
@@ -394,10 +426,11 @@ def corpus():
         return (f"Modules: {{\n  A: {{hard: true, rectangles: [[{2*s},{2*s},{2*s},{2*s}],[{3*s},{2*s},{2*s},{2*s}]]}},\n"
                 f"  B: {{area: {4*s*s}, center: [{s},{s}]}}\n}}\nNets: [[A,B]]\n")
     h = 1e-1
-    hist = {"kind": "netlist", "scale": h, "rects": [],
+    hist = {"kind": "netlist", "scale": h, "rects": [], "proposal": h * K_NET,
             "text": f"Modules: {{\n  A: {{area: {h*h}, center: [{h},{h}]}},\n  B: {{area: {4*h*h}, center: [{h},{h}]}}\n}}\nNets: [[A,B]]\n"}
     s = 1e-4
-    probe = {"kind": "netlist", "scale": s, "text": nl(s), "rects": [[(2*s, 2*s, 2*s, 2*s), (3*s, 2*s, 2*s, 2*s)]]}
+    probe = {"kind": "netlist", "scale": s, "text": nl(s), "rects": [[(2*s, 2*s, 2*s, 2*s), (3*s, 2*s, 2*s, 2*s)]],
+             "proposal": 2 * s * K_NET}
     return [([hist], probe)]
 
 
@@ -441,12 +474,25 @@ def run(ctx: Ctx) -> None:
             ctx.drift += 0 if exact else 1
         else:
             finding = None
-            if vals and probe["kind"] in ("netlist", "die", "alloc", "legal"):
-                lo, hi = min(vals), max(vals)
+            legit = [h["proposal"] for h in hist if "proposal" in h] + ([probe["proposal"]] if "proposal" in probe else [])
+            inforce = hist_states[-1][0]
+            explained = any(abs(inforce - v) <= 1e-9 * v for v in legit)   # the sticky mechanism, nothing else
+            if explained and probe["kind"] in ("netlist", "die", "alloc", "legal"):
+                lo, hi = min(legit), max(legit)
                 if not robust(probe, lo, hi):
                     finding = "C20-sticky-tolerance-nonrobust-design"
             ctx.spec_fail("history_indep", inp, {"fresh": fresh_dig[:600], "after_history": hist_dig[:600]},
                           size=len(hist), finding=finding)
+        # spec on implementation: the tolerance in force after the history is the proposal of the FIRST design that
+        # carries one (sticky), computed on the spec side from the generated data
+        legit_seq = [h["proposal"] for h in hist if "proposal" in h] + ([probe["proposal"]] if "proposal" in probe else [])
+        got = hist_states[-1][0]
+        if legit_seq:
+            # (a design rejected before it reaches the guarded set_epsilon defines nothing, hence "some", not "the first")
+            if not (got == -1.0 or any(abs(got - v) <= 1e-9 * v for v in legit_seq)):
+                ctx.spec_fail("tolerance_is_a_design_proposal", inp, {"in_force": got, "proposals": legit_seq[:6]}, size=len(hist))
+        elif got >= 0:
+            ctx.spec_fail("tolerance_untouched_by_non_geometric_ops", inp, {"in_force": got}, size=len(hist))
         # correspondence of the tolerance state with the model (only kinds whose proposal we can reconstruct)
         if all((p is not None) for p in hist_props) and hist_props:
             reqs.append(model_request(hist_props))
